@@ -2,9 +2,10 @@
    kind 0301: FS model vs the Linux kernel (random syscall sequences in a chroot jail).
    kind 0302: real fsutil.Receive fed by a hostile sender vs recv_fs (see below). *)
 From Coq Require Import List NArith Bool.
-From FS Require Import Sx Model.Path Model.Stat Model.Fs.
+From FS Require Import Sx Model.Path Model.Stat Model.Validator Model.Fs Model.DiskWriterFs.
 Import ListNotations.
 Open Scope N_scope.
+Open Scope bool_scope.
 
 (* ---- encoding of inodes and snapshots (shared by both kinds) ---- *)
 Definition type_code (k : ikind) : N :=
@@ -100,4 +101,171 @@ Definition run_0301 (input impl : sx) : sx :=
     | None => v_malformed
     end
   | _ => v_malformed
+  end.
+
+(* ================= kind 0302: the real Receive fed by a scripted hostile sender =================
+   input = (setup-ops dest packets merge); impl = (class t0 destreal before after) with RAW lstat
+   snapshots of the whole jail (see harness/c03_recv.go).
+   model         = recv_fs on the file system the setup ops build (Model/DiskWriterFs.v);
+   specification = C03, evaluated on the two raw snapshots only (nothing of the model):
+     (a) everything not strictly below the destination directory is unchanged — every entry,
+         with inode number, link count, type, mode, owner, mtime, ctime, device, link target,
+         xattrs and bytes; for the destination directory itself: its entry (name, inode, type,
+         mode, owner, xattrs); for an inode that had a second name inside the destination
+         before the run: link count and ctime are left out (removing the inside name changes them);
+     (b) a stream the specification calls bad (C12 path/order/parent specification, hard link
+         to a path not sent before, content for an id no regular STAT announced or already
+         terminated) makes Receive fail, and no path first named at or after the offending
+         packet has been created or altered. *)
+Record rawent := {
+  re_path : bytes; re_ino : N; re_nlink : N; re_type : N; re_perm : N; re_uid : N; re_gid : N;
+  re_mtime : N; re_ctime : N; re_rdev : N; re_target : bytes; re_xattrs : sx; re_content : bytes }.
+
+Definition dec_rawent (s : sx) : option rawent :=
+  match s with
+  | SL [SB p; SN ino; SN nl; SN t; SN pm; SN u; SN g; SN mt; SN ct; SN rd; SB tg; xa; SB c] =>
+    Some {| re_path := p; re_ino := ino; re_nlink := nl; re_type := t; re_perm := pm; re_uid := u; re_gid := g;
+            re_mtime := mt; re_ctime := ct; re_rdev := rd; re_target := tg; re_xattrs := xa; re_content := c |}
+  | _ => None
+  end.
+
+Fixpoint raw_first_index (ino : N) (l : list rawent) (k : N) : N :=
+  match l with
+  | [] => k
+  | e :: r => if N.eqb ino (re_ino e) then k else raw_first_index ino r (k + 1)
+  end.
+
+(* a raw snapshot in the format of [enc_snapshot]: mtimes written during the run are "now" *)
+Definition conv_snapshot (t0 : N) (l : list rawent) : sx :=
+  SL (map (fun e =>
+             SL [SB (re_path e); SN (raw_first_index (re_ino e) l 0);
+                 SL [SN (re_type e); SN (re_perm e); SN (re_uid e); SN (re_gid e);
+                     SN (if N.leb t0 (re_mtime e) then now_mark else re_mtime e);
+                     SN (re_rdev e); SB (re_target e); re_xattrs e; SB (re_content e)]]) l).
+
+Definition dec_packet (s : sx) : option packet :=
+  match s with
+  | SL [SN 0] => Some (PStat None)
+  | SL [SN 0; st] => s' <- dec_stat st ;; Some (PStat (Some s'))
+  | SL [SN 1; SN id; SB d] => Some (PData id d)
+  | SL [SN 2] => Some PFin
+  | SL [SN 3; SB _] => Some PErr
+  | SL [SN 4; SN _] => Some POther
+  | SL [SN 5; SN _] => Some POther
+  | _ => None
+  end.
+
+(* ---- specification (a): outside unchanged ---- *)
+Definition strictly_below (d p : bytes) : bool :=
+  match d with
+  | [] => negb (is_nil p)
+  | _ => has_prefix (d ++ [sep]) p
+  end.
+Fixpoint memN (x : N) (l : list N) : bool := match l with [] => false | y :: r => N.eqb x y || memN x r end.
+
+Definition outside_key (dest : bytes) (shared : list N) (e : rawent) : sx :=
+  if bytes_eqb (re_path e) dest then
+    SL [SB (re_path e); SN (re_ino e); SN (re_type e); SN (re_perm e); SN (re_uid e); SN (re_gid e); re_xattrs e]
+  else
+    let sh := memN (re_ino e) shared in
+    SL [SB (re_path e); SN (re_ino e); SN (if sh then 0 else re_nlink e); SN (re_type e); SN (re_perm e);
+        SN (re_uid e); SN (re_gid e); SN (re_mtime e); SN (if sh then 0 else re_ctime e); SN (re_rdev e);
+        SB (re_target e); re_xattrs e; SB (re_content e)].
+
+Definition outside_view (dest : bytes) (shared : list N) (l : list rawent) : sx :=
+  SL (map (outside_key dest shared) (filter (fun e => negb (strictly_below dest (re_path e))) l)).
+
+(* ---- specification (b): bad streams ---- *)
+Record sspec := { ss_acc : list vitem; ss_paths : list bytes; ss_next : N; ss_ids : list N; ss_term : list N }.
+
+Fixpoint spec_bad (pks : list packet) (s : sspec) (i : nat) : option nat :=
+  match pks with
+  | [] => None
+  | PFin :: _ => None          (* nothing after FIN is looked at *)
+  | PErr :: _ => None          (* the sender gave up *)
+  | POther :: r => spec_bad r s (S i)
+  | PStat None :: r => spec_bad r s (S i)
+  | PStat (Some st) :: r =>
+    let it := item_of st in
+    let islink := negb (st_is_dir st) && negb (mode_is_symlink (st_mode st)) && negb (is_nil (st_linkname st)) in
+    if negb (spec_ok_b (ss_acc s) it) then Some i
+    else if islink && negb (mem_bytes (st_linkname st) (ss_paths s)) then Some i
+    else spec_bad r {| ss_acc := ss_acc s ++ [it]; ss_paths := st_path st :: ss_paths s; ss_next := ss_next s + 1;
+                       ss_ids := if mode_is_regular (st_mode st) && is_nil (st_linkname st)
+                                 then ss_next s :: ss_ids s else ss_ids s;
+                       ss_term := ss_term s |} (S i)
+  | PData id d :: r =>
+    if negb (memN id (ss_ids s)) || memN id (ss_term s) then Some i
+    else spec_bad r {| ss_acc := ss_acc s; ss_paths := ss_paths s; ss_next := ss_next s; ss_ids := ss_ids s;
+                       ss_term := if is_nil d then id :: ss_term s else ss_term s |} (S i)
+  end.
+Definition sspec_init : sspec := {| ss_acc := []; ss_paths := []; ss_next := 0; ss_ids := []; ss_term := [] |}.
+
+Definition stat_paths (pks : list packet) : list bytes :=
+  flat_map (fun pk => match pk with PStat (Some st) => [st_path st] | _ => [] end) pks.
+
+Definition find_raw (p : bytes) (l : list rawent) : option rawent :=
+  find (fun e => bytes_eqb (re_path e) p) l.
+(* link count and ctime are left out: they change when ANOTHER name of the inode is removed *)
+Definition raw_full (e : rawent) : sx :=
+  SL [SN (re_ino e); SN (re_type e); SN (re_perm e); SN (re_uid e); SN (re_gid e); SN (re_mtime e);
+      SN (re_rdev e); SB (re_target e); re_xattrs e; SB (re_content e)].
+
+(* no path first named at or after packet [b] exists afterwards unless it is the untouched old entry *)
+Definition not_applied (dest : bytes) (pks : list packet) (b : nat) (before after : list rawent) : bool :=
+  let early := stat_paths (firstn b pks) in
+  forallb (fun p =>
+             if negb (ok_path p) || mem_bytes p early then true
+             else
+               let q := child_path dest p in
+               match find_raw q after with
+               | None => true
+               | Some ea => match find_raw q before with
+                            | Some eb => sx_eqb (raw_full ea) (raw_full eb)
+                            | None => false
+                            end
+               end) (stat_paths (skipn b pks)).
+
+(* known finding: a hard-link STAT naming a file the transfer left in place re-stamps that
+   inode; when the inode has a second name outside the destination, the outside file changes.
+   Signature: the outside views differ only in metadata of inodes shared with the inside. *)
+Definition outside_key_nometa (dest : bytes) (shared : list N) (e : rawent) : sx :=
+  if memN (re_ino e) shared && negb (bytes_eqb (re_path e) dest) then
+    SL [SB (re_path e); SN (re_ino e); SN (re_type e); SN (re_rdev e); SB (re_target e); SB (re_content e)]
+  else outside_key dest shared e.
+Definition outside_view_nometa (dest : bytes) (shared : list N) (l : list rawent) : sx :=
+  SL (map (outside_key_nometa dest shared) (filter (fun e => negb (strictly_below dest (re_path e))) l)).
+
+Definition run_0302 (input impl : sx) : sx :=
+  match input, impl with
+  | SL [SL ops; SB dest; SL pks; SN mg], SL [SN cls; SN t0; SB destreal; bf; af] =>
+    match run_ops (ctx_init, fs_init) ops [], omap dec_packet pks, sx_list dec_rawent bf, sx_list dec_rawent af with
+    | Some (f0, _), Some packets, Some before, Some after =>
+      match resolve_ino ctx_init f0 dest true, resolve_ino ctx_init f0 dest false with
+      | inl d0, inl dlno =>
+        let dl := match get f0 dlno with Some {| i_kind := KLink _ |} => true | _ => false end in
+        let st := recv_fs f0 1 d0 dl (negb (N.eqb mg 0)) [] packets in
+        let model := SL [SN (recv_class st); enc_snapshot (snapshot_from f0 1); enc_snapshot (snapshot_from (r_fs st) 1)] in
+        let implv := SL [SN cls; conv_snapshot t0 before; conv_snapshot t0 after] in
+        (* specification, on the raw snapshots *)
+        let shared := map re_ino (filter (fun e => strictly_below destreal (re_path e)) before) in
+        let contained := sx_eqb (outside_view destreal shared before) (outside_view destreal shared after) in
+        let bad := spec_bad packets sspec_init 0 in
+        let rejected := match bad with
+                        | None => true
+                        | Some b => (N.eqb cls 1 || N.eqb cls 3) && not_applied destreal packets b before after
+                        end in
+        let ran := N.leb cls 3 in
+        let code := (if contained then 0 else 1) + (if rejected then 0 else 2) + (if ran then 0 else 4) in
+        let sig := if negb contained && rejected && ran
+                      && sx_eqb (outside_view_nometa destreal shared before) (outside_view_nometa destreal shared after)
+                   then [SL [SB [115; 105; 103]; SB [104;97;114;100;108;105;110;107;45;114;101;115;116;97;109;112;115;45;
+                                                     115;104;97;114;101;100;45;105;110;111;100;101]]]
+                   else [] in
+        verdict model implv (contained && rejected && ran) (SL (SN code :: of_optnat bad :: sig))
+      | _, _ => v_malformed
+      end
+    | _, _, _, _ => v_malformed
+    end
+  | _, _ => v_malformed
   end.
